@@ -17,16 +17,16 @@ var labelNames = []string{"app", "env", "lvl", "pod", "num", "zone"}
 var tokens = []string{"error", "warn", "GET", "POST", "timeout", "user=7", "100%", "a_b", "x.y", "[ok]", "(retry)", "it's", `say "hi"`, `back\slash`, "end$", "^start", "pipe|line", "star*", "q?", "plus+"}
 
 type GenOpts struct {
-	Hostile   bool
-	JSONLines bool // lines are JSON objects (for json stages)
-	Logfmt    bool
-	Numeric   bool // samples carry numeric values (unwrap_value) and numeric labels
-	MaxSeries int
+	Hostile    bool
+	JSONLines  bool // lines are JSON objects (for json stages)
+	Logfmt     bool
+	Numeric    bool // samples carry numeric values (unwrap_value) and numeric labels
+	MaxSeries  int
 	MaxSamples int
-	StartNs   int64
-	EndNs     int64
-	StepAlign int64 // place timestamps around multiples of this (bucket edges)
-	Malformed bool  // some lines are cut after a readable prefix / are not objects (json), have an unterminated quote (logfmt)
+	StartNs    int64
+	EndNs      int64
+	StepAlign  int64 // place timestamps around multiples of this (bucket edges)
+	Malformed  bool  // some lines are cut after a readable prefix / are not objects (json), have an unterminated quote (logfmt)
 }
 
 func hv(r *rand.Rand, base string, hostile bool) string {
